@@ -193,6 +193,9 @@ pub fn alt_err7() -> Result<i64, i64> {
 pub fn iter2() -> std::vec::IntoIter<i64> {
     vec![7i64, 8, 9, 10, 11].into_iter()
 }
+pub fn iter_l() -> std::vec::IntoIter<i64> {
+    (101i64..=124).collect::<Vec<i64>>().into_iter()
+}
 /// operand shape "call": a call expression whose value is the callback
 pub fn ret<F>(f: F) -> F {
     f
